@@ -167,6 +167,20 @@ Theorem C19_xmr_limit : (forall a, 2 ^ 63 - 1 < a <= 2 ^ 64 - 1 -> exists j, to_
   (exists j, to_json_xmr_s (- 2 ^ 63) = AOk j /\ of_json_xmr_s j = None).
 Proof. split; [exact xmr_u_limit|exact xmr_s_limit]. Qed.
 
+(* serialising an amount never panics: every u64 / i64, also where the monero string will not be read back *)
+Theorem C19_amounts_total : forall sg k a, amt_in_type sg a -> exists j, to_json_amt sg k a = AOk j /\ j <> JNull.
+Proof. exact amt_total. Qed.
+
+(* likewise through ::opt and ::slice *)
+Theorem C19_amounts_opt_vec_total : forall sg k,
+  (forall o, wf_opt (amt_in_type sg) o -> exists j, to_json_amt_opt sg k o = AOk j) /\
+  (forall l, Forall (amt_in_type sg) l -> exists j, to_json_amt_vec sg k l = AOk j).
+Proof. exact amt_opt_vec_total. Qed.
+
+(* the range of the two amount types *)
+Theorem C19_amounts_type_range : forall sg a, amt_in_type sg a <-> if sg then - 2 ^ 63 <= a <= 2 ^ 63 - 1 else 0 <= a <= 2 ^ 64 - 1.
+Proof. intros sg a. reflexivity. Qed.
+
 (* non-vacuity / known answers: the exact text serde_json writes, and what the readers accept and refuse *)
 Definition txt (j : json) : string := string_of_bytes (print_json j).
 Example C19_ex_text :
@@ -290,6 +304,14 @@ Check C19_xmr_limit : (forall a, 2 ^ 63 - 1 < a <= 2 ^ 64 - 1 -> exists j, to_js
   (exists j, to_json_xmr_s (- 2 ^ 63) = AOk j /\ of_json_xmr_s j = None).
 
 
+Check C19_amounts_total : forall sg k a, amt_in_type sg a -> exists j, to_json_amt sg k a = AOk j /\ j <> JNull.
+
+Check C19_amounts_opt_vec_total : forall sg k,
+  (forall o, wf_opt (amt_in_type sg) o -> exists j, to_json_amt_opt sg k o = AOk j) /\
+  (forall l, Forall (amt_in_type sg) l -> exists j, to_json_amt_vec sg k l = AOk j).
+
+Check C19_amounts_type_range : forall sg a, amt_in_type sg a <-> if sg then - 2 ^ 63 <= a <= 2 ^ 63 - 1 else 0 <= a <= 2 ^ 64 - 1.
+
 Print Assumptions C19_roundtrip_hash.
 Print Assumptions C19_roundtrip_hash8.
 Print Assumptions C19_roundtrip_key.
@@ -324,3 +346,6 @@ Print Assumptions C19_amounts_opt.
 Print Assumptions C19_amounts_vec.
 Print Assumptions C19_amounts_domain.
 Print Assumptions C19_xmr_limit.
+Print Assumptions C19_amounts_total.
+Print Assumptions C19_amounts_opt_vec_total.
+Print Assumptions C19_amounts_type_range.
